@@ -91,3 +91,105 @@ func c14KindFollowsCommand(r *core.Run) {
 	}
 	r.Floor(rule, cnt, 4)
 }
+
+// c14UnsubscribeKindFilter: an argument-less UNSUBSCRIBE cancels the connection's channel
+// subscriptions and nothing else; PUNSUBSCRIBE the pattern subscriptions and nothing else.
+// Wherever unsubscribe walks the connection's entries, an entry is selected (collected,
+// kept, handed on) only on the equal edge of entry.pattern == pattern.
+func c14UnsubscribeKindFilter(r *core.Run) {
+	const rule = "unsubscribe-kind-filter"
+	fn := r.Need(rule, fnPSUnsub)
+	if fn == nil {
+		return
+	}
+	cnt := 0
+	n := counter{}
+	for _, sf := range core.AllSSA(fn.SSA) {
+		core.Instrs(sf, func(in ssa.Instruction) {
+			ex, ok := in.(*ssa.Extract)
+			if !ok || ex.Index != 1 {
+				return
+			}
+			nx, isNx := ex.Tuple.(*ssa.Next)
+			if !isNx {
+				return
+			}
+			rg, isRange := nx.Iter.(*ssa.Range)
+			if !isRange || core.LastField(rg.X) != "entries" {
+				return
+			}
+			// uses of the entry other than reading its fields
+			for _, ref := range *ex.Referrers() {
+				if _, isFA := ref.(*ssa.FieldAddr); isFA {
+					continue
+				}
+				if _, isDbg := ref.(*ssa.DebugRef); isDbg {
+					continue
+				}
+				cnt++
+				filtered := false
+				conds := core.Conditions(ref.Block())
+				if phi, isPhi := ref.(*ssa.Phi); isPhi {
+					// the entry flows into a variable: judge the edge it arrives on
+					conds = nil
+					for i, e := range phi.Edges {
+						if e == ssa.Value(ex) {
+							conds = append(conds, edgeConds(phi.Block().Preds[i], phi.Block())...)
+						}
+					}
+				}
+				for _, cd := range conds {
+					bin, isBin := cd.Val.(*ssa.BinOp)
+					if isBin && cd.Truth && (core.LastField(bin.X) == "pattern" || core.LastField(bin.Y) == "pattern") {
+						filtered = true
+					}
+				}
+				r.Check(filtered, rule, n.next(fnName(r.P, sf)+" selects an entry"), site(r, instrPos(ref)),
+					"only entries of the kind the command names are selected (entry.pattern == pattern)",
+					"an entry of the connection is selected without comparing its kind with the command's: a bare UNSUBSCRIBE also cancels the pattern subscriptions (or PUNSUBSCRIBE the channel ones), their messages stop and NUMPAT/NUMSUB/CHANNELS drop subscriptions the client still holds")
+			}
+		})
+	}
+	r.Floor(rule, cnt, 2)
+}
+
+// c14SubscribersNotIdleClosed: a connection in subscriber mode is detached from redcon's
+// serve loop, which is the only place where the idle read deadline is re-armed. If the
+// server is given an idle timeout, every subscriber is cut off that long after its
+// SUBSCRIBE although it neither unsubscribed nor disconnected — unless the subscriber loop
+// re-arms the deadline itself.
+func c14SubscribersNotIdleClosed(r *core.Run) {
+	const rule = "subscribers-not-idle-closed"
+	p := r.P
+	sets := false
+	var where ssa.Instruction
+	for _, fn := range p.FuncList {
+		if fn.SSA == nil || core.RelPkg(fn.Pkg.PkgPath) != "olric" {
+			continue
+		}
+		core.Instrs(fn.SSA, func(in ssa.Instruction) {
+			if st, ok := in.(*ssa.Store); ok && core.LastField(st.Addr) == "IdleClose" {
+				if fa, isFA := st.Addr.(*ssa.FieldAddr); isFA {
+					if t := deref(fa.X.Type()); t != nil && t.String() == core.Module+"/internal/server.Config" {
+						sets, where = true, in
+					}
+				}
+			}
+		})
+	}
+	rearm := false
+	if bg := p.Fn(fnBgrunner); bg != nil && bg.SSA != nil {
+		for _, sf := range core.AllSSA(bg.SSA) {
+			if len(findInstrs(sf, false, callNamed("SetReadDeadline"))) > 0 || len(findInstrs(sf, false, callNamed("SetDeadline"))) > 0 {
+				rearm = true
+			}
+		}
+	}
+	pos := "-"
+	if where != nil {
+		pos = site(r, instrPos(where))
+	}
+	r.Check(!sets || rearm, rule, "idle timeout and detached subscribers", pos,
+		"the RESP server gets no idle timeout (or the subscriber loop re-arms the deadline)",
+		"the RESP server is configured with an idle timeout while the detached subscriber loop never re-arms the read deadline: every subscriber is disconnected that long after SUBSCRIBE and silently stops receiving messages")
+}
